@@ -162,9 +162,31 @@ CANNED = {
         dict(op='compile', input='-true , -false', expect='implicit print when no action is present', bad=lambda g: g[0] == 'OK' and '(print-relative-path)' not in g[1]),
         dict(op='compile', input='-name a', expect='implicit print when no action is present', bad=lambda g: g[0] == 'OK' and '(print-relative-path)' not in g[1]),
     ],
+    'C09.top.wrap_decision': [
+        dict(op='compile', input='-false -o -name x', expect='implicit print when no action is present', bad=lambda g: g[0] == 'OK' and '(print-relative-path)' not in g[1]),
+        dict(op='compile', input='-name x -a ( -false -o -true )', expect='implicit print when no action is present', bad=lambda g: g[0] == 'OK' and '(print-relative-path)' not in g[1]),
+        dict(op='compile', input='! -name x', expect='implicit print when no action is present', bad=lambda g: g[0] == 'OK' and '(print-relative-path)' not in g[1]),
+        dict(op='compile', input='-true , -quit', expect='no implicit print when an action is present', bad=_has('(print-relative-path)')),
+    ],
+    'C19.byte_size.value': [
+        dict(op='compile', input='-size +16777216T', expect='constant 18446744073709551616', bad=lambda g: g[0] == 'OK' and ' 18446744073709551616)' not in g[1]),
+        dict(op='compile', input='-size 36028797018963971', expect='constant 18446744073709553152', bad=lambda g: g[0] == 'OK' and ' 18446744073709553152)' not in g[1]),
+        dict(op='compile', input='-size -3k', expect='constant 3072', bad=lambda g: g[0] == 'OK' and ' 3072)' not in g[1]),
+    ],
+    'C04.format.text': [
+        dict(op='compile', input='-printf "backup~"', expect='(format #f "backup~~" )', bad=lambda g: g[0] == 'OK' and '(format #f "backup~~" )' not in g[1]),
+        dict(op='compile', input="-printf 'a\"b%p'", expect='template a\\"b~a inside (format #f …)', bad=lambda g: g[0] == 'OK' and '(format #f "a\\"b~a" (absolute-path))' not in g[1]),
+        dict(op='compile', input='-printf "%p\\n"', expect='(format #f "~a\\n" (absolute-path))', bad=lambda g: g[0] == 'OK' and '(format #f "~a\\n" (absolute-path))' not in g[1]),
+    ],
+    'C20.render.text': [
+        dict(op='compile', input='-true\t/dev/a"b', expect='device literal "/dev/a\\"b"', bad=lambda g: g[0] == 'OK' and '"/dev/a\\"b"' not in g[1]),
+        dict(op='compile', input='-true\t/dev/a\nb', expect='device literal with the newline itself', bad=lambda g: g[0] == 'OK' and '"/dev/a\nb"' not in g[1]),
+    ],
     'C12.refusal.iff': [
+        dict(op='compile', input='-regex foo , -print', expect='refused (unsupported test left of a comma)', bad=_is('OK')),
         dict(op='compile', input='nope', expect='refused (unsupported option)', bad=_is('OK')),
         dict(op='compile', input='-true -o -regex x', expect='refused (unsupported test in a dead branch)', bad=_is('OK')),
+        dict(op='compile', input='! ( -name a -o -samefile b )', expect='refused', bad=_is('OK')),
         dict(op='compile', input='-printf "%p%Z"', expect='refused (unsupported format directive)', bad=_is('OK')),
         dict(op='compile', input='-ls', expect='refused (unsupported action)', bad=_is('OK')),
         dict(op='compile', input='-name a -print', expect='compiles', bad=_is('CERR')),
